@@ -183,9 +183,27 @@ def gen_concurrent(r):
                            "reqs": reqs, "follow": r.chance(0.6)}, "nclients": 2, "ops": []}
 
 
+def busy_neighbour(step, nb, first="A", path="r0"):
+    """An upload A that goes on for long (a block every `step` seconds) and an upload B of another endpoint to the same
+    resource that is started next to it and continued only after A is through: B's state has been idle for nb x step."""
+    a = steps_of({"tid": 0, "c": 0, "method": "PUT", "path": path, "query": "k=0", "szx": 0, "total": nb * 16 - 3, "seed": 5, "rlen": 8})
+    b = steps_of({"tid": 1, "c": 1, "method": "PUT", "path": path, "query": "k=0", "szx": 0, "total": 30, "seed": 9, "rlen": 8})
+    ops = []
+    for i, st in enumerate(a):
+        st["t"] = round(0.1 + i * step, 3)
+        ops.append(st)
+    b[0]["t"] = 0.05 if first == "B" else 0.2
+    b[1]["t"] = round(0.1 + (nb - 1) * step + 1.0, 3)
+    ops += b
+    ops.sort(key=lambda o: o["t"])
+    return {"nclients": 2, "ops": ops}
+
+
 def gen(r, tier):
     if r.chance(0.12):
         return gen_concurrent(r)
+    if r.chance(0.05):
+        return busy_neighbour(r.choice([0.3 * T, 0.6 * T, 0.9 * T, T - 0.5]), r.randint(3, 7), r.choice(["A", "B"]), r.choice(["r0", "r1"]))
     nclients = r.choice([1, 2, 3])
     seqs = []
     ntr = r.randint(1, 4)
@@ -274,6 +292,11 @@ def systematic(tier):
         s["t"] = round(0.1 * (j + 1), 3)
     out.append({"nclients": 2, "ops": ops})
     out.append({"nclients": 2, "ops": [dict(o) for o in ops], "front": True})
+    # somebody else's state is kept busy while one's own idles
+    for step in (0.5 * T, 0.9 * T):
+        for nb in (4, 6):
+            for first in ("A", "B"):
+                out.append(busy_neighbour(step, nb, first))
     # idle gaps around the lifetime between block 0 and block 1
     for gap in (T - 0.5, T + 0.5, 2 * T - 0.5, 2 * T + 0.5, 3 * T):
         st = steps_of({"tid": 0, "c": 0, "method": "PUT", "path": "r0", "query": "", "szx": 0, "total": 30, "seed": 1, "rlen": 8})
